@@ -362,6 +362,41 @@ fn main() {
     if is_global_default_set() == unset {
         cx.violation("panic-iff-unset", "is_global_default_set-wrong", format!("is_global_default_set() = {} in a process where the client was {}set", is_global_default_set(), if unset { "not " } else { "" }), Json::Null);
     }
+    // a macro invoked from a destructor that runs while its thread is unwinding from another panic: the rule "panics if and
+    // only if no global client has been set" has no exception for that (the macro's panic is caught inside the destructor)
+    {
+        let outcome = std::sync::Arc::new(std::sync::atomic::AtomicU8::new(0));
+        struct InDrop(std::sync::Arc<std::sync::atomic::AtomicU8>);
+        impl Drop for InDrop {
+            fn drop(&mut self) {
+                let unwinding = std::thread::panicking();
+                let res = std::panic::catch_unwind(|| {
+                    statsd_count!("macro.in.drop", 1);
+                    statsd_gauge!("macro.in.drop", 2u64, "a" => "b");
+                });
+                self.0.store(if !unwinding { 9 } else if res.is_err() { 1 } else { 2 }, std::sync::atomic::Ordering::SeqCst);
+            }
+        }
+        let o2 = outcome.clone();
+        let before = cx.sink.emit_count();
+        let _ = std::thread::spawn(move || {
+            let _g = InDrop(o2);
+            panic!("scripted-panic: unwinding with a metric-emitting guard on the stack");
+        })
+        .join();
+        let got = outcome.load(std::sync::atomic::Ordering::SeqCst);
+        let sent = cx.sink.emit_count() - before;
+        cx.rep.obs("macros_invoked_from_a_destructor_during_unwinding", 1);
+        match (unset, got) {
+            (true, 1) | (false, 2) => {}
+            (true, _) => cx.violation("panic-iff-unset", "no-panic-when-unset", format!("macros invoked from a destructor during unwinding did not panic although no global client is set (outcome code {})", got), Json::Null),
+            (false, _) => cx.violation("panic-iff-unset", "panic-with-client-set", format!("macros invoked from a destructor during unwinding: outcome code {} (1 = panicked), {} emits", got, sent), Json::Null),
+        }
+        if !unset && got == 2 && sent != 2 && cx.sink_mode == "accept" {
+            cx.violation("single-emit", "emit-count", format!("two macros invoked from a destructor during unwinding produced {} emits", sent), Json::Null);
+        }
+        cx.sink.log.lock().unwrap().script.clear();
+    }
     if late_set {
         cx.rep.obs("macros_tried_before_set", 2);
         if early_panics != 2 {
